@@ -25,22 +25,22 @@ const (
 type FlowSpec struct {
 	Text string // the flow description as sent
 	// parsed meaning (by the generator that produced Text; independent of the agent)
-	Valid      bool
-	Dir        string // "in" | "out"
-	Proto      int    // -1 = ip (any)
-	RemoteIP   uint32
-	RemoteLen  int // prefix length 0..32
-	UESide     string // "assigned" | "any" | "ip"
-	UEIP       uint32
-	UELen      int
-	HasPort    bool
-	PortLo     uint16
-	PortHi     uint16
+	Valid     bool
+	Dir       string // "in" | "out"
+	Proto     int    // -1 = ip (any)
+	RemoteIP  uint32
+	RemoteLen int    // prefix length 0..32
+	UESide    string // "assigned" | "any" | "ip"
+	UEIP      uint32
+	UELen     int
+	HasPort   bool
+	PortLo    uint16
+	PortHi    uint16
 }
 
 type PDRSpec struct {
 	// PDIOrder: 0 = Source Interface first (what pfcpsim sends), 1 = reversed, 2 = rotated by one
-	PDIOrder int
+	PDIOrder   int
 	ID         uint16
 	Precedence uint32
 	SrcIface   uint8
@@ -93,13 +93,13 @@ func (p *PDRSpec) EffUEIP() uint32 {
 }
 
 type FARSpec struct {
-	ID       uint32
-	Action   uint8
-	DstIface uint8
-	HasFwd   bool // forwarding parameters present
-	HasOHC   bool
-	TEID     uint32
-	PeerIP   net.IP
+	ID        uint32
+	Action    uint8
+	DstIface  uint8
+	HasFwd    bool // forwarding parameters present
+	HasOHC    bool
+	TEID      uint32
+	PeerIP    net.IP
 	EndMarker bool // SNDEM in an update
 }
 
@@ -363,10 +363,10 @@ type ModSpec struct {
 	RemovePDR            []uint16
 	RemoveFAR            []uint32
 	RemoveQER            []uint32
-	NewCPSEID            uint64 // 0 = keep
-	Tag                  string // generator's name for the kind of change (signature component)
+	NewCPSEID            uint64   // 0 = keep
+	Tag                  string   // generator's name for the kind of change (signature component)
 	Extra                []*ie.IE // additional raw IEs (malformed elements)
-	Trigger              string // non-empty: this operation is a trigger of a listed known finding
+	Trigger              string   // non-empty: this operation is a trigger of a listed known finding
 }
 
 func (m *ModSpec) Empty() bool {
